@@ -96,23 +96,23 @@ type tRaw struct {
 }
 
 type tStep struct {
-	Op    string `json:"op"`
-	Id    int    `json:"id"`
-	End   string `json:"end"`  // stream kinds: a|b; http kinds: instance A|B
-	Addr  string `json:"addr"` // http kinds: name of the connection's address
-	V     *tVal  `json:"v"`
-	Raw   *tRaw  `json:"raw"`
-	Shape string `json:"shape"` // hs: nobody | unreadable | raw | val
-	Ids   []int  `json:"ids"`
-	Ms    int    `json:"ms"`
-	S     int    `json:"s"` // tick: seconds
-	Gate  string `json:"gate"`
-	Gid   uint64 `json:"gid"`  // gate id: the envelope id of the request to park
-	Pre   bool   `json:"pre"`  // the context is already done when the call is made
-	Src   string `json:"src"`  // burst: the (fresh) source of the simultaneous first requests
-	Dial  bool   `json:"dial"` // burst: NewConnection(address of src) races the requests
-	Unsized bool `json:"unsized"` // hs: the request body has no announced length (chunked): ContentLength -1
-	Lane    int  `json:"lane"`    // w: writer goroutine of that end (0 = the end's one sequential writer); writes of different lanes overlap
+	Op      string `json:"op"`
+	Id      int    `json:"id"`
+	End     string `json:"end"`  // stream kinds: a|b; http kinds: instance A|B
+	Addr    string `json:"addr"` // http kinds: name of the connection's address
+	V       *tVal  `json:"v"`
+	Raw     *tRaw  `json:"raw"`
+	Shape   string `json:"shape"` // hs: nobody | unreadable | raw | val
+	Ids     []int  `json:"ids"`
+	Ms      int    `json:"ms"`
+	S       int    `json:"s"` // tick: seconds
+	Gate    string `json:"gate"`
+	Gid     uint64 `json:"gid"`     // gate id: the envelope id of the request to park
+	Pre     bool   `json:"pre"`     // the context is already done when the call is made
+	Src     string `json:"src"`     // burst: the (fresh) source of the simultaneous first requests
+	Dial    bool   `json:"dial"`    // burst: NewConnection(address of src) races the requests
+	Unsized bool   `json:"unsized"` // hs: the request body has no announced length (chunked): ContentLength -1
+	Lane    int    `json:"lane"`    // w: writer goroutine of that end (0 = the end's one sequential writer); writes of different lanes overlap
 }
 
 type tScen struct {
@@ -307,12 +307,13 @@ type tEnd struct {
 }
 
 type tInst struct {
-	name     string
-	goh      *goat.GoatOverHttp
-	srv      *httptest.Server
-	hostport string
-	mu       sync.Mutex
-	hold     chan struct{}
+	name      string
+	goh       *goat.GoatOverHttp
+	srv       *httptest.Server
+	hostport  string
+	mu        sync.Mutex
+	hold      chan struct{}
+	loseReply int // the answers to the next requests ServeHTTP has served are lost on the way back (connection aborted)
 }
 
 type tRun struct {
@@ -765,6 +766,9 @@ func (r *tRun) wrap(h *tInst) http.Handler {
 		sw := &tStatusWriter{ResponseWriter: w, code: 200}
 		defer func() {
 			if p := recover(); p != nil {
+				if p == http.ErrAbortHandler { // ours (a lost reply)
+					panic(p)
+				}
 				c := ev("Crash")
 				c.C, c.X = op.id, fmt.Sprint(p)
 				r.emit(c)
@@ -772,8 +776,21 @@ func (r *tRun) wrap(h *tInst) http.Handler {
 			}
 		}()
 		h.goh.ServeHTTP(sw, q)
+		h.mu.Lock()
+		lose := h.loseReply > 0 && sw.code == 200
+		if lose {
+			h.loseReply--
+		}
+		h.mu.Unlock()
 		y := ev("Http")
 		y.C, y.Code, y.X = op.id, sw.code, h.name
+		if lose {
+			// the request was served (the envelope is with its reader), the answer never reaches the sender: net/http
+			// drops the connection without writing the buffered response
+			y.Res = "lost"
+			r.emit(y)
+			panic(http.ErrAbortHandler)
+		}
 		r.emit(y)
 	})
 }
@@ -1002,6 +1019,11 @@ func (r *tRun) step(st tStep) {
 		h.mu.Unlock()
 	case "unhold":
 		r.unhold(r.insts[st.End])
+	case "losereply":
+		h := r.insts[st.End]
+		h.mu.Lock()
+		h.loseReply++
+		h.mu.Unlock()
 	case "q":
 		r.quiesce()
 	default:
